@@ -150,6 +150,8 @@ class Engine(object):
             ta = a.t if a.s is None else z3.StringVal(a.s)
             tb = b.t if b.s is None else z3.StringVal(b.s)
             return ta == tb
+        if type(a).__name__ == "VBytes" and type(b).__name__ == "VBytes":
+            return a.t == b.t
         if isinstance(a, VStr) or isinstance(b, VStr):
             return z3.BoolVal(False)
         if isinstance(a, VBV) and isinstance(b, VBV) and a.width == b.width:
@@ -198,6 +200,8 @@ class Engine(object):
             if a.s is not None and b.s is not None:
                 return VStr(a.s + b.s)
             raise OutOfSubset(f"line {line}: symbolic string concatenation")
+        if type(a).__name__ == "VBytes" and type(b).__name__ == "VBytes" and isinstance(op, ast.Add):
+            return type(a)(z3.Concat(a.t, b.t))
         if isinstance(a, (VArr, VArr2)) or isinstance(b, (VArr, VArr2)):
             return self.array_binop(op, a, b, st, line)
         if not (self.is_num(a) and self.is_num(b)):
